@@ -175,13 +175,13 @@ Definition chunked_frame (trailer : hdrs) (coded : list bytes) : bytes :=
   concat_bytes (map chunk (nonempty_items coded)) ++
   (match trailer with [] => ZERO_CRLF ++ CRLF | _ :: _ => ZERO_CRLF ++ hcompose trailer end).
 
-(* content coding: per piece on the pinned tree, once over the whole content after the repair (finding D42) *)
+(* content coding: per piece on the pinned tree, once over the whole (non-empty) content after the repair (finding D42) *)
 Definition encode_pieces (vc : variant) (codec : option N) (ps : list bytes) : list bytes :=
   match codec with
   | None => ps
   | Some id => match vc with
                | AsFound => map (cc_comp C id) ps
-               | Repaired => [cc_comp C id (concat_bytes ps)]
+               | Repaired => match ps with [] => [] | _ :: _ => [cc_comp C id (concat_bytes ps)] end
                end
   end.
 
@@ -366,13 +366,13 @@ Definition r_step_ranges (code : N) (rmethod : bytes) (h : hdrs) (b : body) : op
                  else h10 in
       Some (if mem_bytes rmethod REQ_TRACE_METHODS then hdel H_SET_COOKIE h12 else h12)
   end.
-(* HEAD: body = None; finding D29 repaired: no chunk framing and no content coding on a body that must not be sent *)
+(* HEAD: body = None; finding D29 repaired: no chunk framing on a body that must not be sent *)
 Definition r_bodiless (code : N) (rmethod : bytes) : bool := bytes_eqb rmethod M_HEAD || rfc_bodiless_status code.
 Definition r_step_head (v29 : variant) (code : N) (rmethod : bytes) (b : body) : body :=
   let b14 := if bytes_eqb rmethod M_HEAD then body_clear b else b in
   match v29 with
   | AsFound => b14
-  | Repaired => if r_bodiless code rmethod then with_codec (with_chunked b14 false) None else b14
+  | Repaired => if r_bodiless code rmethod then with_chunked b14 false else b14
   end.
 
 (* ComposedResponse.prepare; [v29] selects the behaviour for finding D29 *)
